@@ -1,4 +1,5 @@
 /* C18 - publications file: strict structure, exact signed range, trust only via PKI, lookups */
+#include <unistd.h>
 #include "ku.h"
 #include "ref/ref_pki.h"
 #include <ksi/publicationsfile.h>
@@ -35,6 +36,11 @@ static KSI_CTX *trusting_ctx(int anchor /*0 good CA, 1 rogue CA only, 2 none*/, 
 		case 3: c[0].oid = KSI_CERT_EMAIL; c[0].val = EMAIL; c[1].oid = KSI_CERT_COMMON_NAME; c[1].val = CN; break;
 		case 4: c[0].oid = KSI_CERT_EMAIL; c[0].val = EMAIL; c[1].oid = KSI_CERT_COMMON_NAME; c[1].val = "Verif Publication"; break;
 		default: break;
+	}
+	if (constraints >= 5) {
+		/* 5 / 6: the right / a wrong e-mail address given through the older setter */
+		if (KSI_CTX_setPublicationCertEmail(ctx, constraints == 5 ? EMAIL : "publications@verif.tesT") != KSI_OK) vf_harness_error("setPublicationCertEmail");
+		return ctx;
 	}
 	if (KSI_CTX_setDefaultPubFileCertConstraints(ctx, c) != KSI_OK) vf_harness_error("setDefaultPubFileCertConstraints");
 	return ctx;
@@ -130,6 +136,26 @@ static void part_structure(void) {
 					if (KSI_PublicationsFile_getSignedDataLength(pf, &sdl) != KSI_OK || sdl != sig_off)
 						vf_fail("signed-range", "sequence %s: signed data length %zu, signature record starts at %zu", seq, sdl, sig_off);
 				}
+				if (res == KSI_OK && exp != 0) {
+					/* re-serializing the object keeps the reported range exact: it is everything before the signature record of the bytes
+					 * the object now stands for (unknown non-critical records are dropped by the rebuild) */
+					char *out = NULL;
+					size_t on = 0, off = 8, sdl2 = 0;
+					int sr = KSI_PublicationsFile_serialize(ctx, pf, &out, &on);
+					vf_count("impl_calls", 1);
+					if (sr != KSI_OK || out == NULL) vf_fail("serialize-refused", "sequence %s: an accepted file cannot be serialized: 0x%x", seq, sr);
+					else {
+						rtlv t;
+						int found = 0;
+						while (off < on && rtlv_read((const unsigned char *)out + off, on - off, &t) == 0) { if (t.tag == 0x704) { found = 1; break; } off += t.hdr + t.len; }
+						if (!found) vf_fail("serialized-without-signature", "sequence %s: the serialized file has no signature record", seq);
+						else if (KSI_PublicationsFile_getSignedDataLength(pf, &sdl2) != KSI_OK || sdl2 != off)
+							vf_fail("signed-range", "sequence %s (variant %d): after KSI_PublicationsFile_serialize the signed data length is reported as %zu, the signature record of the serialized file starts at %zu", seq, variant, sdl2, off);
+						if (variant == 0 && strchr(seq, 'N') == NULL && (on != b.n || memcmp(out, b.p, on) != 0)) vf_fail("serialize-differs", "sequence %s: the canonical file re-serializes to other bytes (%zu vs %zu)", seq, on, b.n);
+						vf_outcome("struct:serialized");
+					}
+					KSI_free(out);
+				}
 				vf_obs("res=%x sdl=%zu", res, sdl);
 				KSI_PublicationsFile_free(pf);
 				free(ex);
@@ -163,7 +189,40 @@ static int parse_and_verify(KSI_CTX *ctx, const unsigned char *p, size_t n, int 
 		v2 = KSI_verifyPublicationsFile(ctx, pf);
 		vf_count("impl_calls", 3);
 		if ((v == KSI_OK) != (v2 == KSI_OK)) vf_fail("verify-disagree", "KSI_PublicationsFile_verify=0x%x but KSI_verifyPublicationsFile=0x%x", v, v2);
+		{
+			/* serializing the object in between does not change what is verified */
+			char *out = NULL;
+			size_t on = 0;
+			int v3;
+			if (KSI_PublicationsFile_serialize(ctx, pf, &out, &on) == KSI_OK) {
+				v3 = KSI_PublicationsFile_verify(pf, ctx);
+				vf_count("impl_calls", 2);
+				if (on == n && memcmp(out, p, n) == 0 && (v3 == KSI_OK) != (v == KSI_OK)) vf_fail("verify-after-serialize", "the verdict changed from 0x%x to 0x%x after KSI_PublicationsFile_serialize (same bytes)", v, v3);
+			}
+			KSI_free(out);
+		}
 	} else vf_count("impl_calls", 1);
+	{
+		/* the same bytes read from a file on disk are judged the same way */
+		static char path[64];
+		KSI_PublicationsFile *ff = NULL;
+		FILE *f;
+		int fr, fv;
+		if (!path[0]) snprintf(path, sizeof path, "/tmp/vf_c18_%ld.bin", (long)getpid());
+		f = fopen(path, "wb");
+		if (f == NULL || fwrite(p, 1, n, f) != n) vf_harness_error("cannot write %s", path);
+		fclose(f);
+		fr = KSI_PublicationsFile_fromFile(ctx, path, &ff);
+		vf_count("impl_calls", 1);
+		if ((fr == KSI_OK) != (res == KSI_OK)) vf_fail("from-file-differs", "KSI_PublicationsFile_parse gives 0x%x, KSI_PublicationsFile_fromFile on the same %zu bytes 0x%x", res, n, fr);
+		else if (fr == KSI_OK) {
+			fv = KSI_PublicationsFile_verify(ff, ctx);
+			vf_count("impl_calls", 1);
+			if ((fv == KSI_OK) != (v == KSI_OK)) vf_fail("from-file-differs", "verification of the parsed bytes gives 0x%x, of the same bytes read with KSI_PublicationsFile_fromFile 0x%x", v, fv);
+		}
+		KSI_PublicationsFile_free(ff);
+		remove(path);
+	}
 	KSI_PublicationsFile_free(pf);
 	free(ex);
 	return v;
@@ -200,6 +259,12 @@ static int verify_file_constraints(KSI_CTX *ctx, const unsigned char *p, size_t 
 	if (kind == 2) { c[0].oid = KSI_CERT_EMAIL; c[0].val = "publications@verif.tesT"; }
 	if (KSI_PublicationsFile_parse(ctx, ex, n, &pf) == KSI_OK) {
 		if (KSI_PublicationsFile_setCertConstraints(pf, c) != KSI_OK) vf_harness_error("KSI_PublicationsFile_setCertConstraints");
+		{
+			/* the object reports the list it was given */
+			KSI_CertConstraint *gc = NULL;
+			if (KSI_PublicationsFile_getCertConstraints(pf, &gc) != KSI_OK || gc == NULL || (kind == 0 ? gc[0].oid != NULL : (gc[0].oid == NULL || strcmp(gc[0].oid, c[0].oid) != 0 || gc[0].val == NULL || strcmp(gc[0].val, c[0].val) != 0 || gc[1].oid != NULL)))
+				vf_fail("file-constraints-not-reported", "KSI_PublicationsFile_getCertConstraints does not report the %s list set on the file object", kind == 0 ? "empty" : "one-entry");
+		}
 		v = KSI_PublicationsFile_verify(pf, ctx);
 		v2 = KSI_verifyPublicationsFile(ctx, pf);
 		vf_count("impl_calls", 4);
@@ -229,7 +294,7 @@ static int verify_file_constraints(KSI_CTX *ctx, const unsigned char *p, size_t 
 static void part_trust(void) {
 	int anchor, cons, signer;
 	/* matrix: signer x anchor x constraint set */
-	for (signer = 0; signer < 3; signer++) for (anchor = 0; anchor < 3; anchor++) for (cons = 0; cons < 5; cons++) {
+	for (signer = 0; signer < 3; signer++) for (anchor = 0; anchor < 3; anchor++) for (cons = 0; cons < 7; cons++) {
 		KSI_CTX *ctx;
 		vbuf b;
 		size_t sl;
@@ -242,7 +307,7 @@ static void part_trust(void) {
 		v = parse_and_verify(ctx, b.p, b.n, &pres);
 		/* trusted iff the signer chains to the configured anchor and every configured constraint (at least one) matches */
 		expect = (anchor == 0 && signer != 1) || (anchor == 1 && signer == 1);
-		if (cons == 0 || cons == 2 || cons == 4) expect = 0;
+		if (cons == 0 || cons == 2 || cons == 4 || cons == 6) expect = 0;
 		if (signer == 2) expect = 0;                          /* other e-mail address */
 		vf_outcome("trust:%s:%s", expect ? "trusted-expected" : "untrusted-expected", v == KSI_OK ? "trusted" : "refused");
 		if (pres != KSI_OK) vf_fail("valid-file-refused", "signed file refused by the parser 0x%x", pres);
